@@ -33,6 +33,7 @@ func init() {
 }
 
 func runC01(c *Ctx) {
+	c.NotArmed("C01.R5", "same obligation as C02.R1 (wait-before-push in the traversal closure); discharged under C02, not duplicated here")
 	c01R1(c)
 	c01R2(c)
 	c01R3(c)
@@ -999,7 +1000,7 @@ func c01R4(c *Ctx) {
 				return (pa && capturedFrom(b, rootParam)) || (pb && capturedFrom(a, rootParam))
 			})
 			if len(eqT) == 0 {
-				c.Violation(R, key, W.Pos(), "the "+inst.role+" wrapper never compares the node with the root (content.Equal(desc, root))")
+				c.Undecided(R, key, W.Pos(), "no content.Equal(desc, root) test recognised in the "+inst.role+" wrapper: cannot tell the root path from the others")
 				continue
 			}
 			tags := c01TagEffects(W, func(v ssa.Value) bool { return capturedFrom(v, refParam) })
@@ -1186,6 +1187,8 @@ var c01Mutants = []Mutant{
 	{Name: "skipped-root-not-tagged", File: "copy.go",
 		Old: "\t\tif err := dst.Tag(ctx, root, dstRef); err != nil {\n\t\t\treturn newCopyError(\"Tag\", CopyErrorOriginDestination, err)\n\t\t}\n\t\treturn nil\n\t}\n\n\treturn nil\n}",
 		New: "\t\treturn nil\n\t}\n\n\treturn nil\n}", Expect: "C01.R4.root-tagging|~.prepareCopy$OnCopySkipped|tags-root"},
+	{Name: "hooks-not-installed-for-empty-ref", File: "copy.go",
+		Old: "\tif refPusher, ok := dst.(registry.ReferencePusher); ok {\n\t\t// optimize performance for ReferencePusher targets\n", New: "\tif dstRef == \"\" {\n\t\treturn nil\n\t}\n\tif refPusher, ok := dst.(registry.ReferencePusher); ok {\n\t\t// optimize performance for ReferencePusher targets\n", Expect: "C01.R4.root-tagging|~.prepareCopy|installs-"},
 	{Name: "copy-returns-unmapped-root", File: "copy.go",
 		Old: "\t\troot, err = opts.MapRoot(ctx, proxy, root)\n\t\tif err != nil {", New: "\t\tmapped, err := opts.MapRoot(ctx, proxy, root)\n\t\t_ = mapped\n\t\tif err != nil {", Expect: "C01.R4.root-tagging|~.Copy|one-root-prepared-copied-returned"},
 	{Name: "copy-tags-srcref", File: "copy.go",
